@@ -11,6 +11,7 @@ from symfc.utils.matrix_tools import permutation_dot_lat_trans
 from symfc.utils.permutation_tools import get_combinations
 from symfc.utils.solver_funcs import get_batch_slice
 from symfc.utils.utils import get_indep_atoms_by_lat_trans
+from symfc.utils._verif_hooks import _verif_override
 from symfc.utils.utils_O3 import get_atomic_lat_trans_decompr_indices_O3
 
 try:
@@ -402,6 +403,7 @@ def compressed_projector_sum_rules_O3(
         nonzero_c = nonzero_c.reshape((natom, NN)).T.reshape(-1)
         nonzero = nonzero & nonzero_c
 
+    n_batch = _verif_override("SUMRULE_NBATCH", n_batch)
     batch_size = optimize_batch_size_sum_rules_O3(natom, n_batch=n_batch)
     abc = np.arange(27)
     for begin, end in zip(*get_batch_slice(NNN, batch_size)):
@@ -521,6 +523,7 @@ def compressed_projector_sum_rules_O3_stable(
         nonzero = fc_cutoff.nonzero_atomic_indices_fc3()
         nonzero = nonzero.reshape((natom, NN)).T.reshape(-1)
 
+    n_batch = _verif_override("SUMRULE_NBATCH", n_batch)
     batch_size = optimize_batch_size_sum_rules_O3(natom, n_batch=n_batch)
     abc = np.arange(27)
     for begin, end in zip(*get_batch_slice(NNN, batch_size)):
